@@ -1209,7 +1209,7 @@ impl Scenario for Decode1090Proc {
                 ("input file", "stub (written by the driver before the process starts; damaged lines injected: non-UTF-8 bytes, non-JSON text, a line cut short, an empty line, JSON of another shape)"),
             ],
             assumptions: vec!["output timestamps are compared with a tolerance of 10 µs (JSON text round trip)", "a reception on a damaged line is not in the file; every reception on an intact line is"],
-            fault_kinds: vec!["nonmonotone_arrival", "duplicate_delivery", "eof_with_open_groups", "damaged_line", "legacy_format", "upper_case_hex_line"],
+            fault_kinds: vec!["nonmonotone_arrival", "duplicate_delivery", "eof_with_open_groups", "damaged_line", "legacy_format", "upper_case_hex_line", "no_final_newline"],
             probes: vec!["records_printed", "monotone_history", "eof_with_3_open_groups", "reopened_after_expiry"],
         }
     }
@@ -1295,6 +1295,12 @@ pub fn execute_decode1090(plan: &C10Plan) -> Outcome<C10Plan> {
         push_junk(&mut text, plan.junk[ji].1);
         out.count("damaged_line", 1);
         ji += 1;
+    }
+    // a recording that does not end with a newline (copied, truncated by an
+    // editor, written by another tool): its last line is a reception like the others
+    if plan.receptions.len() % 5 < 2 && text.last() == Some(&b'\n') && plan.junk.last().map_or(true, |j| (j.0 as usize) < plan.receptions.len()) {
+        text.pop();
+        out.count("no_final_newline", 1);
     }
     let mut h = Fnv::new();
     h.bytes(&text);
